@@ -349,7 +349,9 @@ func (p *Parser) parseSelect(stmt *SelectStatement) error {
 		parenthesesLevel := 0 // 跟踪括号嵌套层级
 
 		// 设置最大表达式长度，防止无限循环
-		maxExprParts := 100
+		// (every iteration consumes a token, so this is only a backstop; 100 rejected
+		// legitimate long expressions such as nested CASE with a misleading error)
+		maxExprParts := 10000
 		exprPartCount := 0
 
 		for {
@@ -507,8 +509,9 @@ func (p *Parser) parseWhere(stmt *SelectStatement) error {
 		return nil
 	}
 
-	// Set max iterations limit to prevent infinite loops
-	maxIterations := 100
+	// Set max iterations limit to prevent infinite loops (a backstop: every
+	// iteration consumes a token; 100 rejected legitimate long conditions)
+	maxIterations := 10000
 	iterations := 0
 
 	for {
